@@ -46,7 +46,7 @@ struct Plan {
 
 static std::string g_scratch_base = "/dev/shm";
 static std::string g_corpus_dir, g_replay_dir = "/verif/replays";
-static bool g_write_replays = true, g_keep = false;
+static bool g_write_replays = true, g_keep = false, g_no_t_option = false;
 
 // ------------------------------------------------------------------ shared child -> parent report
 struct Shared {
@@ -458,7 +458,7 @@ static void run_translator(const Plan& p, bool canonical, RunOut& o) {
         if (canonical && a[0] == "-t") continue;
         for (auto& s : a) av.push_back(s);
     }
-    if (canonical) { av.push_back("-t"); av.push_back("1"); }
+    if (canonical && !g_no_t_option) { av.push_back("-t"); av.push_back("1"); }   // the build without pthreads has no -t option
     if (!refpath.empty()) { av.push_back("-r"); av.push_back(refpath); }
     // module path: relative to work when possible
     std::string modarg = modpath;
@@ -695,7 +695,7 @@ int main(int argc, char** argv) {
         else if (a == "--count") count = strtoull(nxt().c_str(), 0, 10); else if (a == "--stride") stride = strtoull(nxt().c_str(), 0, 10); else if (a == "--replay") replay = nxt();
         else if (a == "--dump-plan") dump = true; else if (a == "--corpus") g_corpus_dir = nxt(); else if (a == "--replay-dir") g_replay_dir = nxt();
         else if (a == "--no-replay-files") g_write_replays = false; else if (a == "--scratch") g_scratch_base = nxt(); else if (a == "--c10-enum") c10_enum = true;
-        else if (a == "--keep") g_keep = true; else if (a == "--canonical-dump") canon_dump = true;
+        else if (a == "--keep") g_keep = true; else if (a == "--no-t-option") g_no_t_option = true; else if (a == "--canonical-dump") canon_dump = true;
     }
     S = (Shared*)mmap(nullptr, sizeof(Shared), PROT_READ | PROT_WRITE, MAP_SHARED | MAP_ANONYMOUS, -1, 0);
     if (S == MAP_FAILED) { perror("mmap"); return 2; }
